@@ -40,7 +40,7 @@ def load_variants() -> List[dict]:
 
 
 def _apply(root: str, v: dict) -> Optional[str]:
-    edits = v.get("edits") or [{"file": v["file"], "old": v["old"], "new": v["new"]}]
+    edits = v.get("edits") or [{"file": v["file"], "old": v["old"], "new": v["new"], "count": v.get("count", 1)}]
     for e in edits:
         p = os.path.join(root, e["file"])
         try:
